@@ -258,7 +258,12 @@ def list_origin(ctx, fn, p, base, upto):
         o = list_origin(ctx, fn, p, val, idx)
         if o is not None:
             return (o[0], o[1])
-        return ("keys", A.src(val)) if base.id in ("keys", "new_keys") else None
+        # an alias of something handed in from outside (a field, a parameter) whose [-1]/[0] is taken: treated as a key list
+        if A.is_self_attr(val) or val.id in A.func_params(fn):
+            return ("keys", A.src(val))
+        ctx.unknown("C08-b", base, "%s: cannot tell whether a subscripted local, an alias of another local of undetermined "
+                    "origin, is a list of keys" % A.qualname(fn))
+        return None
     if isinstance(val, (ast.List, ast.ListComp)):
         return ("keys", base.id)
     return None
@@ -356,6 +361,79 @@ def check_exceptions(ctx):
                   detail="returns the dumps result", construct="to_string-return")
 
 
+
+# -- structural derivation of local names (the rules below must not depend on how the analysed code names its locals) ----
+
+def local_defs(fn, name):
+    """Value expressions bound to the local *name* in fn: `name = e` and the matching element of `a, name = e1, e2`;
+    None stands for a binding the rules cannot see through (loop target, with, augmented assignment, opaque unpacking)."""
+    out = []
+    for s in A.walk_local(fn):
+        if isinstance(s, ast.Assign):
+            for t in s.targets:
+                if isinstance(t, ast.Name):
+                    if t.id == name:
+                        out.append(s.value)
+                elif isinstance(t, (ast.Tuple, ast.List)) and isinstance(s.value, (ast.Tuple, ast.List)) \
+                        and len(t.elts) == len(s.value.elts) and not any(isinstance(e, ast.Starred) for e in t.elts):
+                    for te, ve in zip(t.elts, s.value.elts):
+                        if isinstance(te, ast.Name):
+                            if te.id == name:
+                                out.append(ve)
+                        elif name in A.target_names(te):
+                            out.append(None)
+                elif name in A.target_names(t):
+                    out.append(None)
+        elif isinstance(s, (ast.AugAssign, ast.AnnAssign, ast.For, ast.AsyncFor, ast.With, ast.AsyncWith)):
+            if any(name in A.target_names(t) for t in A.assigned_targets(s)):
+                out.append(None)
+        elif isinstance(s, ast.NamedExpr) and s.target.id == name:
+            out.append(None)
+    return out
+
+
+def only_def(fn, name):
+    d = local_defs(fn, name)
+    return d[0] if len(d) == 1 else None
+
+
+def data_context_names(fn):
+    """[(data name, context name)] of the statements `data, context = get_data_context(<value>)` of fn."""
+    out = []
+    for n in A.walk_local(fn):
+        if isinstance(n, ast.Assign) and isinstance(n.value, ast.Call) and A.call_name(n.value) == "get_data_context" \
+                and len(n.targets) == 1 and isinstance(n.targets[0], ast.Tuple) and len(n.targets[0].elts) == 2 \
+                and all(isinstance(e, ast.Name) for e in n.targets[0].elts):
+            out.append((n.targets[0].elts[0].id, n.targets[0].elts[1].id))
+    return out
+
+
+def descent_names(fn, root):
+    """root and every local assigned from it by aliasing or descent (`x = root`, `x = x[key]`)."""
+    names = {root}
+    changed = True
+    while changed:
+        changed = False
+        for n in A.walk_local(fn):
+            if isinstance(n, ast.Assign) and isinstance(n.value, (ast.Name, ast.Subscript, ast.Attribute)) \
+                    and A.root_name(n.value) in names:
+                for t in n.targets:
+                    if isinstance(t, ast.Name) and t.id not in names:
+                        names.add(t.id)
+                        changed = True
+    return names
+
+
+def is_self_attr_index(fn, node, attr, index):
+    """node is `self.<attr>[index]` or `<local>[index]` where the local is defined only by `<local> = self.<attr>`."""
+    if not (isinstance(node, ast.Subscript) and A.int_const(node.slice) == index):
+        return False
+    base = node.value
+    if isinstance(base, ast.Name):
+        base = only_def(fn, base.id)
+    return base is not None and A.is_self_attr(base, attr)
+
+
 # -- C08-d -------------------------------------------------------------------------------
 
 def check_update_context(ctx):
@@ -364,6 +442,13 @@ def check_update_context(ctx):
     cls = A.enclosing_class(fn)
     c = ctx
     sinks = []
+    # the name of the value's context: the second name unpacked from get_data_context(value); the names that walk into it
+    pairs = data_context_names(fn)
+    if not ctx.require(len(pairs) == 1, "C08-d", fn, "UpdateContext.__call__ does not unpack its value by one "
+                       "`data, context = get_data_context(value)`: cannot tell which names denote the value's context"):
+        return
+    ctx_name = pairs[0][1]
+    into_context = descent_names(fn, ctx_name)
 
     class Pol(Policy):
         def call_value(self, interp, call, canon, args, state):
@@ -391,7 +476,7 @@ def check_update_context(ctx):
                     path=state.path)
 
         def on_store(self, interp, node, target, val, state):
-            if isinstance(target, ast.Subscript) and A.root_name(target) in ("subdict", "context"):
+            if isinstance(target, ast.Subscript) and A.root_name(target) in into_context:
                 if isinstance(node, ast.Assign) and isinstance(node.value, ast.Dict) and not node.value.keys:
                     return
                 self.check_sink(node, val, state, A.short(node, 50))
@@ -403,7 +488,7 @@ def check_update_context(ctx):
         def on_return(self, interp, node, val, state):
             if isinstance(node.value, ast.Tuple) and len(node.value.elts) == 2:
                 dv = val.items[0] if val.items else Val()
-                c.check("C08-d", ("data",) in dv.labels and A.src(node.value.elts[1]) == "context", node,
+                c.check("C08-d", ("data",) in dv.labels and isinstance(node.value.elts[1], ast.Name) and node.value.elts[1].id == ctx_name, node,
                         "UpdateContext returns `%s`: the data part must be the unpacked data and the context the value's own" % A.src(node.value),
                         detail="returns (data, context) of the value", path=state.path)
 
@@ -413,17 +498,21 @@ def check_update_context(ctx):
     for n in A.walk_local(fn):
         if isinstance(n, ast.Assign):
             for t in n.targets:
-                if isinstance(t, ast.Subscript) and A.root_name(t) in ("subdict", "context"):
+                if isinstance(t, ast.Subscript) and A.root_name(t) in into_context:
                     if isinstance(n.value, ast.Dict) and not n.value.keys:
+                        # `X[k] = {}` only under `if k not in X or not isinstance(X[k], dict)` (X, k: those of the store itself)
                         test = A.enclosing(n, (ast.If,))
-                        ok = test is not None and "not in subdict" in A.src(test.test) and "not isinstance(subdict[key], dict)" in A.src(test.test)
+                        ok = test is not None and any(n is b or n in list(ast.walk(b)) for b in test.body) \
+                            and "%s not in %s" % (A.src(t.slice), A.src(t.value)) in A.src(test.test) \
+                            and "not isinstance(%s, dict)" % A.src(t) in A.src(test.test)
                         ctx.check("C08-d", ok, n, "UpdateContext replaces an existing sub-dictionary on the key path by {} (`%s` not guarded by "
                                   "'missing or not a dict')" % A.src(n), detail="{} stored only where the path is missing or not a dict")
                     else:
-                        ctx.check("C08-d", A.src(t.slice) == "keys[-1]", n, "UpdateContext stores at `%s`, not at the last key" % A.src(t),
-                                  detail="final store at keys[-1]")
+                        ctx.check("C08-d", is_self_attr_index(fn, t.slice, "_subcontext", -1), n,
+                                  "UpdateContext stores at `%s`, not at the last key of self._subcontext" % A.src(t),
+                                  detail="final store at the last key of self._subcontext")
         if isinstance(n, (ast.Delete,)) or (isinstance(n, ast.Call) and isinstance(n.func, ast.Attribute)
-                                            and n.func.attr in ("pop", "clear", "popitem") and A.root_name(n.func.value) in ("subdict", "context")):
+                                            and n.func.attr in ("pop", "clear", "popitem") and A.root_name(n.func.value) in into_context):
             ctx.violation("C08-d", n, "UpdateContext removes items from the context (`%s`)" % A.short(n, 50))
 
 
@@ -442,12 +531,47 @@ def check_delete_context(ctx):
             destructive.append(n)
         if isinstance(n, ast.Assign) and any(isinstance(t, (ast.Subscript, ast.Attribute)) for t in n.targets):
             destructive.append(n)
+    # names, derived from the code: the value's context (second name unpacked from get_data_context(value)), the last key
+    # (bound to self._keyl[-1]) and the sub-context (bound to get_recursively(<context>, <name bound to self._keyl[:-1]>))
+    pairs = data_context_names(fn)
+    if destructive and not ctx.require(len(pairs) == 1, "C08-d", fn, "DeleteContext.__call__ does not unpack its value by one "
+                                       "`data, context = get_data_context(value)`: cannot tell which name denotes the value's context"):
+        return
+    ctx_name = pairs[0][1] if pairs else None
+
+    def is_keyl(node, last):
+        """self._keyl[-1] (last) / self._keyl[:-1] (not last), directly or through a local bound exactly once to it."""
+        if isinstance(node, ast.Name):
+            node = only_def(fn, node.id)
+        if not (isinstance(node, ast.Subscript) and A.is_self_attr(node.value, "_keyl")):
+            return False
+        if last:
+            return A.int_const(node.slice) == -1
+        sl = node.slice
+        return isinstance(sl, ast.Slice) and sl.lower is None and sl.step is None and A.int_const(sl.upper) == -1
+
+    def is_subcontext(node):
+        if not isinstance(node, ast.Name):
+            return False
+        v = only_def(fn, node.id)
+        return isinstance(v, ast.Call) and A.call_name(v) == "get_recursively" and len(v.args) == 2 and not v.keywords \
+            and isinstance(v.args[0], ast.Name) and v.args[0].id == ctx_name and is_keyl(v.args[1], last=False)
+
     for d in destructive:
         s = A.src(d)
-        ok = s == "del subcont[key]" or (s == "context.clear()" and any(
-            isinstance(a, ast.If) and A.src(a.test) == "not self._keyl" for a in A.ancestors(d)))
+        if isinstance(d, ast.Delete):
+            # del <sub-context>[<last key>]
+            t = d.targets[0] if len(d.targets) == 1 else None
+            ok = isinstance(t, ast.Subscript) and is_subcontext(t.value) and is_keyl(t.slice, last=True)
+        elif isinstance(d, ast.Call) and d.func.attr == "clear":
+            # <context>.clear() for the empty key
+            ok = isinstance(d.func.value, ast.Name) and d.func.value.id == ctx_name and not d.args and not d.keywords and any(
+                isinstance(a, ast.If) and A.src(a.test) == "not self._keyl" for a in A.ancestors(d))
+        else:
+            ok = False
+        canon = {pairs[0][0]: "data", pairs[0][1]: "context"} if pairs else {}
         ctx.check("C08-d", ok, d, "DeleteContext changes the context by `%s`: only the addressed item may be removed" % s,
-                  detail="only the addressed item is deleted (%s)" % s)
+                  detail="only the addressed item is deleted (%s)" % s, construct="destructive:%s" % " ".join(A.src_with(d, canon).split())[:120])
     ctx.instances_floor("C08-d/delete", len(destructive), 1, "destructive operations in DeleteContext.__call__")
 
 
@@ -475,14 +599,18 @@ def check_format_update_with(ctx):
     arg = upd.args[1]
     src_call = arg
     if isinstance(arg, ast.Name):
-        a = [x for x in A.walk_local(fn) if isinstance(x, ast.Assign) and any(A.src(t) == arg.id for t in x.targets)]
-        src_call = a[0].value if len(a) == 1 else None
+        src_call = only_def(fn, arg.id)
     ok2 = isinstance(src_call, ast.Call) and res.canon(src_call.func) == FN + ".str_to_dict" and A.src(src_call.args[0]) == "key"
     ctx.check("C08-e", ok2, upd, "format_update_with does not update d with str_to_dict(key, <formatted value>)",
               detail="update is str_to_dict(key, formatted value)", construct="update-arg")
     # formatting precedes the update: every call of the formatter is before the update statement
-    fmt = [c for c in A.walk_local(fn) if isinstance(c, ast.Call) and (res.canon(c.func) == FN + ".format_context" or
-                                                                      (isinstance(c.func, ast.Name) and c.func.id == "fc"))]
+    # the formatter: format_context(...) itself and calls of the locals bound to its result
+    def is_format_context(c):
+        return isinstance(c, ast.Call) and res.canon(c.func) == FN + ".format_context"
+    formatters = {t.id for a in A.walk_local(fn) if isinstance(a, ast.Assign) and is_format_context(a.value)
+                  for t in a.targets if isinstance(t, ast.Name)} - set(params)
+    fmt = [c for c in A.walk_local(fn) if isinstance(c, ast.Call) and (is_format_context(c) or
+                                                                      (isinstance(c.func, ast.Name) and c.func.id in formatters))]
     ctx.check("C08-e", bool(fmt) and all(c.lineno < upd.lineno for c in fmt), fn, "format_update_with does not format the value before "
               "updating d (a formatting error must leave d untouched)", detail="formatting precedes the update", construct="format-first")
 
@@ -507,7 +635,7 @@ VARIANTS = [
     M("update-no-copy", "lena/context/update_context.py", "        else:\n            update = copy.deepcopy(self._update)", "        else:\n            update = self._update", ["C08-d"]),
     M("update-value-no-copy", "lena/context/update_context.py", "                update = copy.deepcopy(update)\n", "                pass\n", ["C08-d"]),
     M("update-returns-value", "lena/context/update_context.py", "        return (data, context)\n\n    def __eq__", "        return (value, context)\n\n    def __eq__", ["C08-d"]),
-    M("delete-returns-data", "lena/context/elements.py", "                    pass\n        return value", "                    pass\n        return data", ["C08-d"]),
+    M("delete-returns-data", "lena/context/elements.py", "                pass\n        return value", "                pass\n        return data", ["C08-d"]),
     M("fuw-direct-update", "lena/context/functions.py", "    update_recursively(d, formatted_context)", "    d.update(formatted_context)", ["C08-e"]),
     TW("contains-guard-order", "lena/context/functions.py", "        if not isinstance(subdict, dict) or key not in subdict:\n            return False",
        "        if not isinstance(subdict, dict):\n            return False\n        if key not in subdict:\n            return False"),
